@@ -375,7 +375,8 @@ def _run(ctx, pool, futures):
     ctx.assumptions += [
         "SQLite snapshot isolation; the Postgres-only retry/fallback branches of GetPart are not exercised",
         "inner-store operations are atomic (decorator mutex); the decorator consumes the replay stream before the write lands",
-        "forced lease expiry = all heartbeats gated + sleep of 5x the lease; unforced expiry is accepted silently by the trace spec",
+        "forced lease expiry = all heartbeats gated + sleep of 5x the lease; a silent expiry explains a claim only when the "
+        "measured claim_until does not rule it out",
         "infeasible forced schedules are counted, never judged",
     ]
     return ("schedules = shortest TLC behaviours of the model of the code to each of %d targets (every worker-protocol branch, "
